@@ -37,24 +37,39 @@ var (
 
 func newSlot() int { nextSlot++; return nextSlot - 1 }
 
+// Every task remembers by which protocol it is parked (t.spin): the controlled
+// race lane passes the baton through a plain variable inside Sim.run (no
+// happens-before edge between tasks, DESIGN 12.10), everything else - and the
+// ambient scheduler in every lane - uses channels, so that the harness' own
+// bookkeeping in its hooks (Go maps) is ordered between the harness goroutine
+// and a child. A child adopted by a Sim, or handed back by one, changes protocol
+// at its next park.
+
+func wantSpin() bool { return spinTransport && curSim != nil }
+
 // transportPark gives the baton back to whoever resumed t and waits for the
 // next resume (task side).
 func transportPark(t *Task) {
-	if spinTransport {
+	was := t.spin
+	t.spin = wantSpin()
+	if was {
 		turnVar = -1
+	} else {
+		backCh <- struct{}{}
+	}
+	if t.spin {
 		for turnVar != t.slot {
 			runtime.Gosched()
 		}
 		return
 	}
-	backCh <- struct{}{}
 	<-t.resume
 }
 
 // transportResume hands the baton to t and waits until it parks or ends
 // (scheduler side).
 func transportResume(t *Task) {
-	if spinTransport {
+	if t.spin {
 		turnVar = t.slot
 		for turnVar != -1 {
 			runtime.Gosched()
@@ -66,7 +81,7 @@ func transportResume(t *Task) {
 }
 
 func transportAwaitFirst(t *Task) {
-	if spinTransport {
+	if t.spin {
 		for turnVar != t.slot {
 			runtime.Gosched()
 		}
@@ -75,20 +90,33 @@ func transportAwaitFirst(t *Task) {
 	<-t.resume
 }
 
+// transportEnd: the task is over, the baton goes back for good.
+func transportEnd(t *Task) {
+	if t.spin {
+		turnVar = -1
+		return
+	}
+	backCh <- struct{}{}
+}
+
 type ambient struct {
-	on      bool
-	kids    []*Task
-	rng     *Rng
-	cur     *Task // child holding the baton, nil = the harness goroutine
-	base    func(site int)
-	killing bool
-	spin    int
-	rrNext  int
-	fspin   int
-	pYield  float64
+	on        bool
+	kids      []*Task
+	rng       *Rng
+	cur       *Task // child holding the baton, nil = the harness goroutine
+	base      func(site int)
+	killing   bool
+	quiescing bool
+	qsteps    int
+	spin      int
+	rrNext    int
+	fspin     int
+	pYield    float64
 
 	spawned  int64
 	switches int64
+	steps    int64  // yields seen by the ambient hook
+	hash     uint64 // running hash over the ambient scheduler's decisions (folded into the run's event hash)
 	panics   int64
 	lastPan  string
 	foreign  int64
@@ -138,30 +166,14 @@ func ambReset(seed uint64) {
 	if !amb.on {
 		return
 	}
-	var daemons, mortal []*Task
-	for _, k := range amb.kids {
-		if k.daemon {
-			daemons = append(daemons, k)
-		} else {
-			mortal = append(mortal, k)
-		}
-	}
-	if len(mortal) > 0 {
-		amb.killing = true
-		amb.kids = mortal
-		for tries := 0; len(amb.kids) > 0 && tries < 4000; tries++ {
-			ambRun(amb.kids[0])
-		}
-		amb.killing = false
-		// whatever could not be unwound stays parked for ever
-	}
-	amb.kids = daemons
+	ambKillMortal()
+	ambQuiesce()
 	amb.rng = NewRng(seed ^ 0xa3b1e47)
 	// 0 = children are held back until the harness goroutine blocks on them or
 	// a Sim adopts them (a background goroutine that outlives the call which
 	// started it is the interesting case)
 	amb.pYield = []float64{0, 0, 1.0 / 4, 1.0 / 32, 1.0 / 256}[amb.rng.Intn(5)]
-	amb.spawned, amb.switches = 0, 0
+	amb.spawned, amb.switches, amb.steps, amb.hash = 0, 0, 0, 0
 	amb.spin, amb.rrNext = 0, 0
 	amb.panics, amb.lastPan = 0, ""
 	ambRefreshHook()
@@ -186,12 +198,38 @@ func ambRefreshHook() {
 
 func ambHook(site int) {
 	amb.spin = 0
+	amb.steps++
 	if f := amb.base; f != nil {
-		f(site)
+		if amb.cur != nil && amb.cur.daemon {
+			// the hook of a capped call unwinds its caller when the budget is
+			// gone; the caller is the harness goroutine (its next yield), never
+			// a goroutine that lives as long as the process
+			func() {
+				defer func() {
+					if r := recover(); r != nil {
+						if _, ok := r.(abortUnit); !ok {
+							panic(r)
+						}
+					}
+				}()
+				f(site)
+			}()
+		} else {
+			f(site)
+		}
 	}
 	if amb.cur != nil {
-		if amb.killing {
+		amb.cur.blocked = false
+		if amb.killing && !amb.cur.daemon {
 			panic(abortUnit{"killed"})
+		}
+		if amb.quiescing {
+			if amb.qsteps++; amb.qsteps > 2_000_000 {
+				amb.qsteps = 0
+				amb.cur.blocked = true // gives up: it does not come to rest
+				transportPark(amb.cur)
+			}
+			return
 		}
 		if amb.rng.Chance(amb.pYield) {
 			transportPark(amb.cur)
@@ -223,11 +261,7 @@ func startDyn(t *Task, body func()) {
 		if s := curSim; s != nil && len(s.segs) > 0 {
 			s.segs[len(s.segs)-1].N++
 		}
-		if spinTransport {
-			turnVar = -1
-			return
-		}
-		backCh <- struct{}{}
+		transportEnd(t)
 	}()
 }
 
@@ -248,6 +282,13 @@ func ambGo(body func()) {
 func ambRun(t *Task) {
 	amb.cur = t
 	amb.switches++
+	ord := 0
+	for i, k := range amb.kids {
+		if k == t {
+			ord = i + 1
+		}
+	}
+	amb.hash = (amb.hash ^ uint64(amb.steps)<<8 ^ uint64(ord)) * fnvPrime
 	transportResume(t)
 	amb.cur = nil
 	if t.done {
@@ -263,9 +304,10 @@ func ambRun(t *Task) {
 
 func ambForceSwitch() {
 	if amb.cur != nil {
-		if amb.killing {
+		if amb.killing && !amb.cur.daemon {
 			panic(abortUnit{"killed"})
 		}
+		amb.cur.blocked = true
 		transportPark(amb.cur)
 		return
 	}
@@ -296,4 +338,90 @@ func ambForceSwitch() {
 	}
 	amb.rrNext++
 	ambRun(amb.kids[amb.rrNext%len(amb.kids)])
+}
+
+// ambIsolated runs f - library calls that fill one of the harness' own caches
+// (the stream of a prior content, the stream a subject is loaded from) - so
+// that it makes no difference to the run whether the cache was already warm:
+// the run's children do not run, f's own children are scheduled from a PRNG of
+// their own and unwound afterwards (only bytes are kept from f), the run's
+// hook does not see f's yields.
+func ambIsolated(f func()) {
+	if !amb.on || amb.cur != nil || curSim != nil {
+		f()
+		return
+	}
+	rng, p, steps, hash, spawned, switches := *amb.rng, amb.pYield, amb.steps, amb.hash, amb.spawned, amb.switches
+	base := amb.base
+	var daemons, held []*Task
+	for _, k := range amb.kids {
+		if k.daemon {
+			daemons = append(daemons, k)
+		} else {
+			held = append(held, k)
+		}
+	}
+	amb.kids, amb.base = daemons, nil
+	ambQuiesce()
+	amb.rng, amb.pYield = NewRng(0x150c0de), 1.0/32
+	ambRefreshHook()
+	defer func() {
+		ambKillMortal()
+		ambQuiesce()
+		*amb.rng, amb.pYield, amb.steps, amb.hash, amb.spawned, amb.switches = rng, p, steps, hash, spawned, switches
+		amb.kids, amb.base = append(amb.kids, held...), base
+		ambRefreshHook()
+	}()
+	f()
+}
+
+// ambKillMortal unwinds every child that was not started by a package
+// initialiser; the daemons stay.
+func ambKillMortal() {
+	var daemons, mortal []*Task
+	for _, k := range amb.kids {
+		if k.daemon {
+			daemons = append(daemons, k)
+		} else {
+			mortal = append(mortal, k)
+		}
+	}
+	if len(mortal) > 0 {
+		amb.killing = true
+		amb.kids = mortal
+		for tries := 0; len(amb.kids) > 0 && tries < 4000; tries++ {
+			ambRun(amb.kids[0])
+		}
+		amb.killing = false
+		// whatever could not be unwound stays parked for ever
+	}
+	amb.kids = daemons
+}
+
+// ambQuiesce lets every daemon run until it blocks (waits for work): the state
+// a run starts from must not depend on where the previous run left a goroutine
+// that lives as long as the process.
+func ambQuiesce() {
+	if len(amb.kids) == 0 {
+		return
+	}
+	amb.quiescing = true
+	for _, d := range append([]*Task{}, amb.kids...) {
+		if !d.daemon {
+			continue
+		}
+		amb.qsteps = 0
+		for tries := 0; tries < 100000 && !d.done && !d.blocked; tries++ {
+			ambRun(d)
+		}
+	}
+	amb.quiescing = false
+}
+
+// ambSettle is called where the harness may or may not fill a cache (before
+// the lookup): the daemons come to rest either way.
+func ambSettle() {
+	if amb.on && amb.cur == nil && curSim == nil {
+		ambQuiesce()
+	}
 }
